@@ -82,7 +82,7 @@ def gen_theory(fp):
             'Definition af_same (x y : absfmt) : bool := af_le x y && af_le y x.',
             '(* every bounded native integer context is stored in the rung of exactly its format; the last entry is INTEGER *)',
             'Lemma gen_int_ctxs_ok : forallb (fun p => match lookup ladder (fst p) with Some L => af_same (snd p) L | None => false end)',
-            '  (removelast gen_int_ctxs) = true /\\ length gen_int_ctxs = 9%nat.',
+            '  (removelast gen_int_ctxs) = true /\\ List.length gen_int_ctxs = 9%nat.',
             'Proof. vm_compute. split; reflexivity. Qed.', '']
     # C type names
     names = '; '.join(f'({SCALAR[t.name]}, "{t.format()}"%string)' for t in CppScalar)
@@ -90,7 +90,7 @@ def gen_theory(fp):
     out += [f'Definition gen_ctype_names : list (cppscalar * string) := [{names}].',
             f'Definition ctype_names : list (cppscalar * string) := [{exp}].',
             'Lemma gen_ctype_names_ok : forallb (fun p => existsb (fun q => cpp_eqb (fst p) (fst q) && String.eqb (snd p) (snd q)) ctype_names) gen_ctype_names = true',
-            '  /\\ length gen_ctype_names = 11%nat.',
+            '  /\\ List.length gen_ctype_names = 11%nat.',
             'Proof. vm_compute. split; reflexivity. Qed.', '']
     # op table: the correctly rounded operators, their C++ spelling, and the contexts they are registered for
     tab = target.make_op_table()
